@@ -160,6 +160,19 @@ func families(run func(sp *ebnfref.Spec, family string)) {
 			}
 		}
 	}
+	// (ii-e) rule names whose concatenations coincide (`ab c`, `a bc`, `abc`, `a b c`): two different sub-expressions
+	// under one operator whose symbols, written without separator, spell the same text - alone, twice in one rule and
+	// in two rules
+	{
+		names := "a = \"1\" ;\nb = \"2\" ;\nc = \"3\" ;\nab = \"4\" ;\nbc = \"5\" ;\nabc = \"6\" ;\nitem = \"7\" ;\ns = \"8\" ;\nitems = \"9\" ;\n"
+		for _, pair := range [][2]string{{"ab c", "a bc"}, {"abc", "ab c"}, {"abc", "a bc"}, {"a b c", "abc"}, {"a b", "ab"}, {"items", "item s"}, {"a b c", "ab c"}, {"ab | c", "a | bc"}} {
+			for b := 0; b < 4; b++ {
+				mk("names_that_concatenate_alike", fmt.Sprintf("grammar g\n%sstart = %s \"x\" %s ;\n", names, wrap(b, pair[0]), wrap(b, pair[1])))
+				mk("names_that_concatenate_alike", fmt.Sprintf("grammar g\n%sstart = %s \"x\" %s ;\n", names, wrap(b, pair[1]), wrap(b, pair[0])))
+				mk("names_that_concatenate_alike", fmt.Sprintf("grammar g\n%sstart = %s z ;\nz = %s ;\n", names, wrap(b, pair[0]), wrap(b, pair[1])))
+			}
+		}
+	}
 	// (iii) single-character string terminals against non-terminals of the same spelled name
 	for ch, nm := range terminalNames {
 		for b := 0; b < 4; b++ {
